@@ -27,7 +27,7 @@ def cfgs_for(kind, space="grid"):
     base = LC_CFGS_G if kind == "gillespie" else LC_CFGS
     if space == "grid":
         return base
-    return {k: dict(v, space="graph") for k, v in base.items()}
+    return {k: dict(v, space=space) for k, v in base.items()}
 
 
 def _call(sym, obj):
